@@ -259,6 +259,46 @@ def run(chk):
                        for e, val in u.guards(n))
     chk.ob('C14-R3', stop_checked, None, 're-queueing only when no stop signal',
            'the stop signal is not consulted before re-queueing', fi=u.fi, node=st)
+  # the iteration table of an execution is built once and never edited
+  um = repo.by_name('universe')
+  bad = []
+  assigns = []
+  for q, fi in um.funcs.items():
+    for x in walk_local(fi.node):
+      if isinstance(x, ast.Assign):
+        for t in x.targets:
+          if isinstance(t, ast.Attribute) and t.attr == 'iterations' and dotted(t):
+            assigns.append((fi, x))
+          if isinstance(t, ast.Subscript) and (dotted(t.value) or '').endswith('.iterations'):
+            bad.append((fi, x))
+      elif isinstance(x, ast.Delete):
+        for t in x.targets:
+          if isinstance(t, ast.Subscript) and (dotted(t.value) or '').endswith('.iterations'):
+            bad.append((fi, x))
+      elif isinstance(x, ast.Call) and isinstance(x.func, ast.Attribute) and \
+          x.func.attr in ('pop', 'popitem', 'clear', 'update', 'setdefault') and \
+          (dotted(x.func.value) or '').endswith('.iterations'):
+        bad.append((fi, x))
+  owners = {fi.fq for fi, x in assigns}
+  chk.ob('C14-R3', not bad and owners <= {'universe.Logica.__init__',
+                                           'universe.LogicaProgram.InitializeExecution'},
+         None, 'the @Iteration table of an execution is assigned once and never edited',
+         '%s edits execution.iterations in place (%s): members of an iteration '
+         'lose their repetition count, for this or a later execution' % (
+             ', '.join(sorted({fi.fq for fi, x in bad}) or sorted(owners)),
+             norm(bad[0][1], 60) if bad else 'assignment outside InitializeExecution'),
+         fi=bad[0][0] if bad else um.func('LogicaProgram.InitializeExecution'))
+  it = um.func('Annotations.Iterations')
+  fresh = [x for x in walk_local(it.node) if isinstance(x, ast.Assign) and
+           dotted(x.targets[0]) == 'result' and isinstance(x.value, ast.Dict)]
+  rets = [x for x in walk_local(it.node) if isinstance(x, ast.Return)]
+  cached = [x for x in walk_local(it.node) if isinstance(x, ast.Assign) and any(
+      isinstance(t, ast.Attribute) and dotted(t.value) == 'self' for t in x.targets)]
+  chk.ob('C14-R3', bool(fresh) and all(dotted(r.value) == 'result' for r in rets) and not cached,
+         None, 'Annotations.Iterations() builds a fresh table on every call',
+         'Iterations() hands out a cached object: every execution shares one '
+         'table, so an edit made for one requested predicate is seen by the next',
+         fi=it)
   m = repo.by_name('concertina_lib')
   writers = set()
   for fi in m.funcs.values():
